@@ -406,3 +406,47 @@ __CPROVER_ensures(__CPROVER_return_value == 0 ==> (gh_n_push == 0 && gh_node_own
 __CPROVER_ensures(gh_sg_mine_s == 0 && gh_allocs == __CPROVER_old(gh_allocs))
 ;
 #endif
+
+/* ---- signal(): creates the shared state.  Initial state the other units start from: exactly one owner (this handle), nobody listening, no value
+ * (a listener that is resumed before any emission - state destroyed - must see "no value" = await_canceled_exception, not garbage). */
+#ifdef CV_HAS_sig_ctor
+void sig_ctor(SIG *this_)
+__CPROVER_requires(cv_exc_pending == 0 && S_FRESH && RC_PRE && __CPROVER_is_fresh(this_, sizeof(*this_)))
+__CPROVER_requires(gh_sg_blk == 0 && gh_S_slot == 0 && cv_sg_depth == 0 && gh_sg_mine_s == 0 && gh_sg_mine_w == 0 && gh_sg_made == 0 && gh_sg_locks == 0 && gh_sg_disposed == 0 && gh_sg_released == 0 && gh_sg_env_disposed == 0 && gh_sg_shared == 0)
+__CPROVER_assigns(__CPROVER_object_whole(this_), PROTS_GHOSTS, RC_GHOSTS, SG_GHOSTS, gh_sg_blk, gh_S_slot, gh_sg_shared)
+__CPROVER_ensures(cv_exc_pending == 0 && gh_sg_made == 1 && gh_allocs == __CPROVER_old(gh_allocs) + 1 && gh_sg_blk != 0)                      /* one state, made once */
+__CPROVER_ensures((void *)SP_PI(&this_->_state) == (void *)gh_sg_blk && SP_PTR(&this_->_state) == STATE0)                                       /* this handle refers to it */
+__CPROVER_ensures(gh_sg_mine_s == 1 && gh_sg_mine_w == 0 && CB0->strong == 1 && gh_sg_disposed == 0 && gh_sg_released == 0 && gh_sg_shared == 0)   /* ... and is its only owner */
+__CPROVER_ensures(gh_S_slot == ST_SLOT(STATE0) && *gh_S_slot == 0 && gh_n_push == 0 && gh_n_detach == 0 && gh_rc_calls == 0)                     /* nobody is listening */
+__CPROVER_ensures(STATE0->_cur_val == 0 && ST_ENGAGED(STATE0) == 0)                                                                            /* no value yet */
+;
+#endif
+/* ---- collector::operator signal(): one more strong handle on the SAME state (the collector keeps its own) */
+#ifdef CV_HAS_coll_to_signal
+void coll_to_signal(SIG *ret, COLL *this_)
+__CPROVER_requires(C_PRE && gh_coll_obj == (void *)this_ && (void *)SP_PI(&this_->_state) == (void *)gh_sg_blk && SP_PTR(&this_->_state) == STATE0 && gh_sg_mine_s >= 1 && gh_S_excl == 0 && __CPROVER_is_fresh(ret, sizeof(*ret)))
+__CPROVER_assigns(__CPROVER_object_whole(ret), __CPROVER_object_whole(this_), __CPROVER_object_whole(gh_sg_blk), PROTS_GHOSTS, SG_GHOSTS)
+__CPROVER_ensures(cv_exc_pending == 0 && (void *)SP_PI(&ret->_state) == (void *)gh_sg_blk && SP_PTR(&ret->_state) == STATE0)                   /* the signal object is connected to the collector's state */
+__CPROVER_ensures((void *)SP_PI(&this_->_state) == (void *)gh_sg_blk && SP_PTR(&this_->_state) == STATE0)                                       /* the collector stays connected */
+__CPROVER_ensures(gh_sg_mine_s == __CPROVER_old(gh_sg_mine_s) + 1 && gh_sg_mine_w == __CPROVER_old(gh_sg_mine_w) && CB0->strong >= 2 && gh_sg_disposed == 0)
+__CPROVER_ensures(gh_allocs == __CPROVER_old(gh_allocs) && gh_frees == __CPROVER_old(gh_frees) && gh_n_push == 0 && gh_n_detach == 0)          /* no listener is touched */
+;
+#endif
+/* ---- hook_up_emitter(fn) / hook_up(fn): an emitter that is NOT yet hooked and NOT connected, owning the registration function - exactly the state the
+ * first co_await (unit hue_suspend_first) requires: that unit subscribes first and only then calls the registration function. */
+#define HUE_INITIAL(e, fn) (cv_exc_pending == 0 && (e)->_hooked == 0 && !EM_CONNECTED(&(e)->base_emitter) && WP_PTR(&(e)->base_emitter._wk_state) == 0 && \
+   (e)->_fn.tag == (fn)->tag && EM_NODE(&(e)->base_emitter)->_next == 0)      /* not linked into any chain */
+#ifdef CV_HAS_hue_ctor
+void hue_ctor(HUE *this_, REGT *fn)
+__CPROVER_requires(cv_exc_pending == 0 && __CPROVER_is_fresh(this_, sizeof(*this_)) && __CPROVER_is_fresh(fn, sizeof(*fn)))
+__CPROVER_assigns(__CPROVER_object_whole(this_))
+__CPROVER_ensures(HUE_INITIAL(this_, fn) && fn->tag == __CPROVER_old(fn->tag))
+;
+#endif
+#ifdef CV_HAS_hook_up
+void hook_up(HUE *ret, REGT *fn)
+__CPROVER_requires(cv_exc_pending == 0 && __CPROVER_is_fresh(ret, sizeof(*ret)) && __CPROVER_is_fresh(fn, sizeof(*fn)))
+__CPROVER_assigns(__CPROVER_object_whole(ret))
+__CPROVER_ensures(HUE_INITIAL(ret, fn) && fn->tag == __CPROVER_old(fn->tag))
+;
+#endif
